@@ -137,12 +137,16 @@ class HistorySpace(Space):
             v = self.state.vector()
             for pos, name in enumerate(hist):
                 ref = _fresh(self.tier, name)
+                res = None
                 try:
                     res = self.L[name][0]()
                     d = self.letters_mod.result_digest(res)
-                    _overwrite_result(res)      # a result belongs to the caller: whatever the caller does to it must not reach later calls
                 except Exception as e:
                     d = "EXC:%s" % type(e).__name__
+                try:        # a result belongs to the caller: whatever the caller does to it must not reach later calls
+                    _overwrite_result(res)
+                except Exception:
+                    out.count("result_not_overwritten")
                 v2 = self.state.vector()
                 ctx = hist[max(0, pos - self.window + 1):pos + 1]
                 out.case(outcome=(tuple(ctx), d), nontrivial=pos > 0, calls=1)
